@@ -191,7 +191,8 @@ def replace_docstring(source: str, docstr: str, insert_indents=False):
         raise RuntimeError("FunctionDef not found")
 
     first_stmt = node.body[0]
-    docstr = '"""' + docstr + '"""'
+    docstr = '"""' + docstr.replace(
+        "\\", "\\\\").replace('"', '\\"') + '"""'
     prev_token = atok.tokens[first_stmt.first_token.index - 1]
 
     if prev_token.type == token.INDENT:     # compound statements
